@@ -25,6 +25,12 @@ KEYS = ("delta", "max_buckets", "new_sample_thresh", "window_size_thresh", "subw
 def make(case):
     p = case["params"]
     kw = {k: p[k] for k in KEYS}
+    # the same truth value handed over as another type (numpy bool from an array-valued parameter sweep, 0 / 1)
+    cb = case.get("cb_kind")
+    if cb == "np_bool":
+        kw["conservative_bound"] = np.bool_(kw["conservative_bound"])
+    elif cb == "int":
+        kw["conservative_bound"] = int(kw["conservative_bound"])
     return (ADWINAccuracy if case["kind"] == "acc" else ADWIN)(**kw)
 
 
@@ -73,6 +79,12 @@ def gen_cases(ctx):
             pairs.append([encs[enc](t), encs[enc](pr)])
         p = gen_params(ctx)
         cases.append({"kind": "acc", "params": p, "pairs": pairs, "encoding": enc})
+    import random
+    r2 = random.Random(ctx.seed + 3)
+    for c in cases:
+        kind = r2.choice(["bool", "bool", "np_bool", "int"])
+        if kind != "bool":
+            c["cb_kind"] = kind
     return cases
 
 
